@@ -48,7 +48,7 @@ def gen_cases(ctx):
 
 def _values(rng):
   n = int(rng.choice([1, 2, 3, 5, 10, 50, 300]))
-  vk = str(rng.choice(["normal", "ints", "few", "const", "skew", "dup", "const_after_clip", "negative_large"]))
+  vk = str(rng.choice(["normal", "ints", "few", "const", "skew", "dup", "const_after_clip", "negative_large", "huge", "huge"]))
   if vk == "normal":
     v = rng.normal(size=n)
   elif vk == "ints":
@@ -63,12 +63,18 @@ def _values(rng):
     v = np.round(rng.normal(size=n), 1)
   elif vk == "const_after_clip":
     v = rng.uniform(5, 9, size=n)
+  elif vk == "huge":
+    # magnitudes where x - 1 == x: nanosecond timestamps in float64 (spacing 256), ids beyond 2**24 in float32
+    if rng.rand() < .5:
+      v = float(rng.choice([1.7e18, -1.7e18])) + 65536.0 * rng.randint(0, 40, size=n)      # spacing 65536: uniform keypoints stay resolvable (float64 step 256)
+    else:
+      v = (float(rng.choice([3.0e7, -3.0e7])) + 64.0 * rng.randint(0, 40, size=n)).astype(np.float32)   # spacing 64: 20 uniform keypoints stay resolvable (float32 step 2)
   else:
     v = -np.abs(rng.normal(size=n)) * 1e5
   # data columns arrive in every dtype (integer feature columns, integer labels, float32 frames)
   if vk in ("ints", "few", "const") and rng.rand() < .5:
     v = v.astype([np.int64, np.int32, np.uint8][int(rng.randint(3))])
-  elif rng.rand() < .15:
+  elif rng.rand() < .15 and vk != "huge":
     v = v.astype(np.float32)
   return vk, v
 
@@ -117,9 +123,9 @@ def judge(ctx, site, kp, distinct, k, mode, info):
   else:
     if len(distinct) >= 2 and not np.all(np.diff(kp) > 0):
       msgs.append("not strictly increasing: %s" % kp.tolist())
-    if kp.min() < distinct[0] - 1e-9 * max(1, abs(distinct[0])) or kp.max() > distinct[-1] + 1e-9 * max(1, abs(distinct[-1])):
+    if kp.min() < distinct[0] - 1e-12 * max(1, abs(distinct[0])) or kp.max() > distinct[-1] + 1e-12 * max(1, abs(distinct[-1])):
       msgs.append("outside the clipped data range [%g, %g]: %s" % (distinct[0], distinct[-1], kp.tolist()))
-    if len(distinct) >= 2 and (abs(kp[0] - distinct[0]) > 1e-9 * max(1, abs(distinct[0])) or abs(kp[-1] - distinct[-1]) > 1e-9 * max(1, abs(distinct[-1]))):
+    if len(distinct) >= 2 and (abs(kp[0] - distinct[0]) > 1e-12 * max(1, abs(distinct[0])) or abs(kp[-1] - distinct[-1]) > 1e-12 * max(1, abs(distinct[-1]))):
       msgs.append("first/last keypoint (%g, %g) != clip bound / data extreme (%g, %g)" % (kp[0], kp[-1], distinct[0], distinct[-1]))
     if mode == "quantiles":
       want = k if len(distinct) >= k else len(distinct)
